@@ -1103,7 +1103,7 @@ class SheppLoganDataset(Dataset):
 
         kspace = self.fft(image)
 
-        sample = {"kspace": kspace, "filename": self.name, "slice_no": idx}
+        sample = {"kspace": kspace, "filename": self.name, "slice_no": idx % self.nz}
 
         if self.transform is not None:
             sample = self.transform(sample)
